@@ -2,10 +2,10 @@
     ONLY theorem statements (each closed by [exact <lemma of proofs/>]), [Check] pins, [Print Assumptions].
     Folding part: theorems about [Folding.folding_model] (hand model of folding_range::exec +
     utils::range_excluding_trivia, kind list regenerated from the source into GenFoldKinds.v), FOR ALL TREES. *)
-From Coq Require Import List NArith Bool Sorted.
+From Coq Require Import List NArith Bool Sorted String.
 From TG.Gen Require Import GenTokens GenFoldKinds.
-From TG.Model Require Import Chars Tree TreeNav Folding.
-From TG.Proofs Require Import TreeNavProofs FoldingProofs.
+From TG.Model Require Import Chars Tree TreeNav Folding SymbolMap Outline.
+From TG.Proofs Require Import TreeNavProofs FoldingProofs OutlineProofs.
 Import ListNotations.
 Open Scope N_scope.
 
@@ -20,9 +20,9 @@ Check C18_fold_one_to_one : forall t : tree,
 Print Assumptions C18_fold_one_to_one.
 
 (** ... and there are exactly as many ranges as statements of those kinds (independent structural count) *)
-Theorem C18_fold_count : forall t : tree, length (folding_model t) = count_fold t.
+Theorem C18_fold_count : forall t : tree, List.length (folding_model t) = count_fold t.
 Proof. exact fold_count. Qed.
-Check C18_fold_count : forall t : tree, length (folding_model t) = count_fold t.
+Check C18_fold_count : forall t : tree, List.length (folding_model t) = count_fold t.
 Print Assumptions C18_fold_count.
 
 (** the kinds are exactly class, def, defset, foreach, if, let, multiclass (re-proved against the regenerated list) *)
@@ -80,3 +80,62 @@ Example C18_fold_example_hyps :
   In (0, 16) (folding_model ex_tree) /\ In (5, 14) (folding_model ex_tree) /\ nested (5, 14) (0, 16) /\
   count_fold ex_tree = 2%nat.
 Proof. vm_compute. repeat split; auto; discriminate. Qed.
+
+(** ================= Outline part: theorems about [Outline.document_symbol] over the symbol-map state machine
+    [SymbolMap.apply_op] (replayed from the real op log by the check) ================= *)
+
+(** For EVERY op sequence that replays: the per-file symbol list read by document_symbol::exec holds exactly the global
+    symbols added for that file (global records, variables, defsets, multiclasses, global defms), each once, in the
+    order of their `add_*` calls -- nothing missing, duplicated or misplaced; the file has no list iff nothing was added. *)
+Theorem C18_outline_file_list : forall ops S f, run_ops ops = SOk S ->
+  iter_symbols_in_file S f = match globals_in f ops with [] => None | l => Some l end.
+Proof. exact outline_file_list. Qed.
+Check C18_outline_file_list : forall ops S f, run_ops ops = SOk S ->
+  iter_symbols_in_file S f = match globals_in f ops with [] => None | l => Some l end.
+Print Assumptions C18_outline_file_list.
+
+(** For every state: the outline of a file is, in the order of that list, the entry of every symbol that has one. *)
+Theorem C18_outline_of_file : forall S f ds, document_symbol S f = SOk (Some ds) ->
+  exists ids rs, iter_symbols_in_file S f = Some ids /\ Forall2 (entry_spec S) ids rs /\ ds = filter_some rs.
+Proof. exact outline_of_file. Qed.
+Check C18_outline_of_file : forall S f ds, document_symbol S f = SOk (Some ds) ->
+  exists ids rs, iter_symbols_in_file S f = Some ids /\ Forall2 (entry_spec S) ids rs /\ ds = filter_some rs.
+Print Assumptions C18_outline_of_file.
+
+(** ... and an entry ([entry_spec], proofs/OutlineProofs.v) is: for a class its name, kind Class, the range of the declaring
+    identifier, one child per template argument (map order) then one per field; for a def the same without template
+    arguments; for a defset its defs as children; for a multiclass its template arguments; nothing for variables / defms. *)
+Theorem C18_outline_entry : forall S s r, symbol_to_document_symbol S s = SOk r -> entry_spec S s r.
+Proof. exact outline_entry. Qed.
+Check C18_outline_entry : forall S s r, symbol_to_document_symbol S s = SOk r -> entry_spec S s r.
+Print Assumptions C18_outline_entry.
+
+(** the template-argument and field maps are IndexMaps: keys stay distinct and in first-declaration order *)
+Theorem C18_outline_children_order : forall (V : Type) (m : list (name * V)) k v,
+  map fst (amap_insert m k v) = if existsb (fun k' => list_eqb k' k) (map fst m) then map fst m else map fst m ++ [k].
+Proof. exact amap_insert_keys. Qed.
+Check C18_outline_children_order : forall (V : Type) (m : list (name * V)) k v,
+  map fst (amap_insert m k v) = if existsb (fun k' => list_eqb k' k) (map fst m) then map fst m else map fst m ++ [k].
+Print Assumptions C18_outline_children_order.
+
+(** Non-vacuity: a replayable op sequence (the shape of the real log of
+    `class A<int x> { int f = x; } defvar v = 1; defset list<A> S = { def d; } multiclass M<int q> {..}`) *)
+Definition ex_ops : list op :=
+  [ OpAddRecord (s2n "A") RKClass (mkFR 0 6 7) true 0;
+    OpAddTemplateArg (s2n "x") (s2n "int") (mkFR 0 12 13) 0; OpRecordMut 0; OpRecAddTemplateArg (s2n "x") 0;
+    OpAddRecordField (s2n "f") (s2n "int") (mkFR 0 21 22) 0 0; OpRecordMut 0; OpRecAddField (s2n "f") 0;
+    OpAddReference (KTemplateArg, 0) (mkFR 0 25 26);
+    OpAddVariable (s2n "v") (s2n "int") (mkFR 0 40 41) 0;
+    OpAddDefset (s2n "S") (s2n "list<A>") (mkFR 0 75 76) 0;
+    OpAddRecord (s2n "d") RKDef (mkFR 0 85 86) false 1; OpDefsetMut 0; OpDefsetAddDef 1;
+    OpAddMulticlass (s2n "M") (mkFR 0 117 118) 0;
+    OpAddTemplateArg (s2n "q") (s2n "int") (mkFR 0 123 124) 1; OpMulticlassMut 0; OpMcAddTemplateArg (s2n "q") 1;
+    OpAddReference (KRecord, 0) (mkFR 1 0 1) ].
+Example C18_outline_example : exists S, run_ops ex_ops = SOk S /\
+  globals_in 0 ex_ops = [(KRecord, 0); (KVariable, 0); (KDefset, 0); (KMulticlass, 0)] /\
+  document_symbol S 0 = SOk (Some
+    [ DocSym (s2n "A") (s2n "class") 6 7 DKClass
+        [DocSym (s2n "x") (s2n "int") 12 13 DKTemplateArgument []; DocSym (s2n "f") (s2n "int") 21 22 DKField []];
+      DocSym (s2n "S") (s2n "defset") 75 76 DKDefset [DocSym (s2n "d") (s2n "def") 85 86 DKDef []];
+      DocSym (s2n "M") (s2n "multiclass") 117 118 DKMulticlass [DocSym (s2n "q") (s2n "int") 123 124 DKTemplateArgument []] ]).
+Proof. eexists. split; [vm_compute; reflexivity|]. split; vm_compute; reflexivity. Qed.
